@@ -236,6 +236,9 @@ func vPersistRun(tr *vTrace, id string, salt int64, bytesN int) {
 	saved := vPSnap(s)
 	var buf bytes.Buffer
 	version := uint64(7)
+	if rnd.Intn(3) == 0 {
+		version = 0 // the zero version is an ordinary version number
+	}
 	if err := s.Persist(version, &buf); err != nil {
 		tr.Emit(vRec{"ev": "saveerr", "id": id})
 		return
@@ -247,7 +250,7 @@ func vPersistRun(tr *vTrace, id string, salt int64, bytesN int) {
 		tr.Emit(vRec{"ev": "saveerr", "id": id})
 		return
 	}
-	tr.Emit(vRec{"ev": "saved", "id": id, "size": size, "state": saved, "blocks": vPBlocksRec(blocks, origin), "bytes": len(stream), "ver": 7})
+	tr.Emit(vRec{"ev": "saved", "id": id, "size": size, "state": saved, "blocks": vPBlocksRec(blocks, origin), "bytes": len(stream), "ver": int64(version)})
 	emitLoad := func(fault string, fb []vBlock, stream []byte, ver uint64, tsize int) {
 		rec, kind, s2 := vPLoad(stream, ver, tsize)
 		wall := int64(1000) + s2.timerwheel.clock.NowNano()>>vPU
